@@ -801,13 +801,24 @@ func c03R7(c *Check, R *Roles, m *hModel) {
 			}
 		}
 		if reason == "" {
+			// the deciding condition is the library form of the audience comparison itself
+			for _, cnd := range branchConds(r) {
+				inner, _ := unwrapBool(cnd)
+				for _, ac := range audienceComparisons(P, R, v) {
+					if _, isCall := ac.(*ssa.Call); isCall && ac == inner {
+						reason = "no audience element equals the client id"
+					}
+				}
+			}
+		}
+		if reason == "" {
 			// the deciding condition is a call of an own boolean helper that embodies the audience comparison
 			for _, cnd := range branchConds(r) {
 				inner, _ := unwrapBool(cnd)
 				if hc, _, isC := asCall(inner); isC {
 					if g := hc.Common().StaticCallee(); g != nil {
 						for _, ac := range audienceComparisons(P, R, v) {
-							if ac.(*ssa.BinOp).Parent() == g {
+							if ac.(ssa.Instruction).Parent() == g {
 								reason = "no audience element equals the client id"
 							}
 						}
@@ -976,6 +987,16 @@ func condMatchesReason(cond ssa.Value, reason string) bool {
 	case "no audience element equals the client id":
 		if hc, _, isC := asCall(inner); isC && hc.Common().StaticCallee() != nil && hc.Common().StaticCallee().Blocks != nil {
 			return true // classified through the helper (see audienceComparisons)
+		}
+		if hc, _, isC := asCall(inner); isC && has(func(c *ssa.Call) bool { return c.Common().IsInvoke() && c.Common().Method.Name() == "Audience" }) {
+			if o := hc.Common().StaticCallee(); o != nil {
+				if o.Origin() != nil {
+					o = o.Origin()
+				}
+				if o.Pkg != nil && o.Pkg.Pkg.Path() == "slices" && o.Name() == "Contains" {
+					return true
+				}
+			}
 		}
 		if ph, ok := inner.(*ssa.Phi); ok {
 			for d := range dataDeps(ph) {
